@@ -189,14 +189,19 @@ def gen_files(seed, tier, tmp):
     per256 = P // 256
     if tier == "quick":
         plans = [(256, np.uint8, [per256 + 1]), (256, np.uint8, [5000, 4000]),
-                 (1024, np.uint8, [P // 1024 * 2 + 3]), (96, np.uint8, [500])]
+                 (1024, np.uint8, [P // 1024 * 2 + 3]), (96, np.uint8, [500]),
+                 # row sizes above the .npy header that do NOT divide the release block: no release
+                 (160, np.uint8, [P // 160 * 5 + 40]), (1000, np.uint8, [P // 1000 + 60]),
+                 (3072, np.uint8, [2046])]
     else:
         plans = [(256, np.uint8, [per256 - 1]), (256, np.uint8, [per256]), (256, np.uint8, [per256 + 1]),
                  (256, np.uint8, [2 * per256 + 1]), (256, np.uint8, [5000, 4000, 9000]),
                  (256, np.uint8, [per256, 1, per256 + 7]), (1024, np.uint8, [P // 1024 * 3 + 1]),
                  (512, np.uint8, [P // 512 + 5, P // 512 - 5]), (96, np.uint8, [700]),
                  (64, np.uint8, [P // 64 + 9]), (128, np.uint16, [P // 128 + 3]),
-                 (256, np.int64, [P // 256 + 3])]
+                 (256, np.int64, [P // 256 + 3]),
+                 (160, np.uint8, [P // 160 * 5 + 40]), (1000, np.uint8, [P // 1000 + 60]),
+                 (3072, np.uint8, [2046]), (192, np.uint8, [P // 192 * 3 + 11]), (1000, np.uint16, [P // 2000 + 77])]
     files = []
     for k, (cols, dt, sizes) in enumerate(plans):
         paths = []
